@@ -52,7 +52,23 @@ pub fn profile_c05(rng: &mut Rng) -> GenOpts {
 
 pub fn run_case(_env: &Env, ctx: &mut Ctx, idx: u64) {
     let mut rng = Rng::derive(ctx.seed, 4, idx, 0);
-    let o = profile_c04(&mut rng);
+    let mut o = profile_c04(&mut rng);
+    if rng.chance(1, 6) {
+        // conditionals around and inside real included files (dead includes must not even be looked for)
+        let dir = ctx.tmpdir.join(format!("c04-{}", idx));
+        o.max_depth = 3;
+        o.misuse = false;
+        o.sv_cov = false; // every included file re-installs the SV_COV constants
+        let prog = multi_file(&mut rng, o, 3);
+        let rendered = render(&prog, &mut rng);
+        let cfg = Cfg { include_paths: vec![dir.clone()], ..Cfg::default() };
+        let setup = Setup { prog, rendered, dir: Some(dir.clone()), cfg, top: 0 };
+        setup.write_files();
+        ctx.count("include_graph_programs", 1);
+        check_setup(ctx, &setup, "C04");
+        let _ = std::fs::remove_dir_all(&dir);
+        return;
+    }
     run_with(ctx, &mut rng, o, "C04");
 }
 
@@ -125,7 +141,7 @@ pub fn check_setup(ctx: &mut Ctx, setup: &Setup, which: &str) {
             ctx.count("dead_payload_tokens", strict.dead_payload.len() as u64);
         }
     }
-    let d = compare(&strict, &obs);
+    let d = compare_crlf(&strict, &obs, setup.rendered.crlf);
     let mut h = Fnv::new();
     for (_, t) in &setup.rendered.files {
         h.str(t);
@@ -153,7 +169,7 @@ pub fn check_setup(ctx: &mut Ctx, setup: &Setup, which: &str) {
             let mut sig = String::new();
             for (name, q) in [("K2", Quirks { k2: true, d12: false }), ("D12", Quirks { k2: false, d12: true }), ("K2+D12", Quirks { k2: true, d12: true })] {
                 let e = setup.expect(q);
-                let dq = compare(&e, &obs);
+                let dq = compare_crlf(&e, &obs, setup.rendered.crlf);
                 if ctx.verbose {
                     eprintln!("quirk {}: {:?}", name, dq);
                 }
